@@ -1,0 +1,25 @@
+//go:build verif
+
+// Package verifhook provides schedule points for verification harnesses.
+// With the build tag `verif` a harness can install Hook to pause a goroutine at a named point.
+package verifhook
+
+import "sync/atomic"
+
+var hook atomic.Value // func(string)
+
+// SetHook installs (or, with nil, removes) the function called at every schedule point.
+func SetHook(f func(point string)) {
+	if f == nil {
+		hook.Store((func(string))(nil))
+		return
+	}
+	hook.Store(f)
+}
+
+// Yield calls the installed hook, if any.
+func Yield(point string) {
+	if f, ok := hook.Load().(func(string)); ok && f != nil {
+		f(point)
+	}
+}
